@@ -248,6 +248,8 @@ def H1(vc):
 
     def element(loc, iterable):
         from pyvc.loader import _STOP
+        # what is iterated are the extras of a progress state (the anchor leaves the expression open on purpose)
+        vc.ensure('superseded_handlers_repurposed', getattr(iterable, '_name', None) == 'extras')
         if vc.nondet(2, 'extras exhausted?') == 0:
             return _STOP
         return (vc.fin('extra_purpose', ['create', 'update', 'delete', 'resume', 'weird']), Opaque('counters', success=0, failure=0, running=0))
@@ -255,7 +257,7 @@ def H1(vc):
         'progression.State': StateCls,
         'progression.deliver_results': lambda **kw: vc.emit('deliver_results', kw),
         'execution.execute_handlers_once': execute_handlers_once,
-    }, loops={1: LoopSpec('for extra_purpose, counters in state.extras.items()',
+    }, loops={1: LoopSpec('for extra_purpose, counters in',
                           invariant=lambda loc: isinstance(loc.get('state'), StubState) and loc['state'].purpose_arg is cr
                           and loc['state'].handlers_arg is selected, havoc=havoc, element=element,
                           at_backedge=at_back)})
